@@ -144,13 +144,13 @@ class CList(list):
         return list.remove(self, x)
 
     def __iadd__(self, other):
-        other = list(other)
+        other = list(iter(other))       # (no len() of a recording list)
         self.w.rec(EV_CLIST_EXTEND, 0, len(other))
         list.extend(self, other)
         return self
 
     def extend(self, other):
-        other = list(other)
+        other = list(iter(other))
         self.w.rec(EV_CLIST_EXTEND, 0, len(other))
         list.extend(self, other)
 
@@ -590,7 +590,9 @@ def run_case(rp, case, max_lines=400, max_steps=None):
 
     def control():
         for m in cancels:
-            ex._control_cb('control_pubsub', {'cmd': 'cancel_tasks', 'arg': {'uids': [uid_s(u) for u in m]}})
+            # the uid list of the message is itself a recording list: should the code bind it as the component's
+            # cancel list (instead of copying it), the aliasing is kept and its accesses stay recorded
+            ex._control_cb('control_pubsub', {'cmd': 'cancel_tasks', 'arg': {'uids': CList([uid_s(u) for u in m])}})
 
     fns = {'I': intake, 'C': control, 'W': ex._watch, 'T': ex._to_watcher}
     steps = []
@@ -801,6 +803,8 @@ def gen_scenario(rng, ntasks=None):
     if r < 0.75:
         for _ in range(1 if rng.random() < 0.8 else 2):
             m = [u for u in uids if rng.random() < 0.6] or [rng.choice(uids)]
+            if rng.random() < 0.5:
+                rng.shuffle(m)                   # the order of a request is not the order of delivery
             if rng.random() < 0.08:
                 m.append(9)                      # a uid the executor never sees
             cancels.append(m)
@@ -824,6 +828,21 @@ def gen_sched(rng, sc, length=None):
             w = [rng.choice([0.2, 1, 1, 2, 4]) for _ in range(4)]
     return out
 
+
+
+def bulk_cancel_cases(rng, n=4):
+    """one request names [B, A, C]: B is still on its way to the executor (second input batch) while A and C
+    run; intake steps for B's batch are scheduled between the control thread's steps of the kill of A"""
+    for i in range(n):
+        sc = {'batches': [[{'uid': 1, 'fault': 'none', 'timeout': False, 'stubborn': i % 2 == 1},
+                           {'uid': 3, 'fault': 'none', 'timeout': False, 'stubborn': False}],
+                          [{'uid': 2, 'fault': 'none', 'timeout': False, 'stubborn': False}]],
+              'cancels': [[2, 1, 3]], 'exit_codes': {'1': 0, '2': 0, '3': 3}}
+        pre = ['I'] * 12                              # batch 1 launched: A (1) and C (3) run
+        ckill = ['C'] * rng.randint(3, 7)             # register, look B up (not there), A: found .. kill
+        mid = ['I'] * rng.randint(2, 4)               # batch 2: the intake filter meets B
+        tail = [rng.choice(['C', 'C', 'I', 'W']) for _ in range(rng.randint(0, 12))]
+        yield dict(sc, sched=pre + ckill + mid + tail)
 
 
 def exit_before_poll_cases(rng):
@@ -865,9 +884,9 @@ def coq_row_args(case, obs):
 
 C07_CLAUSES = ['announced_once', 'handed_on_once', 'unscheduled_once', 'not_collected_and_canceled',
                'outcome_attached', 'announced_before_handed_on', 'exit_code_truthful', 'named_examined_after_launch',
-               'canceled_only_if_running_when_polled']
+               'canceled_only_if_running_when_polled', 'handler_examines_every_named_uid']
 C08_EXEC_CLAUSES = ['named_end', 'canceled_means_stopped', 'later_met', 'bystanders_untouched', 'named_examined_after_launch',
-                    'canceled_only_if_running_when_polled']
+                    'canceled_only_if_running_when_polled', 'handler_examines_every_named_uid']
 COQ_HEADER = 'From RP Require Import Exec.Model Exec.Oracle.'
 
 
@@ -888,4 +907,6 @@ def gen_cancel_cases(rng, n):
         sc['cancels'] = [named]
         yield dict(sc, sched=gen_sched(rng, sc))
     for c in exit_before_poll_cases(rng):
+        yield c
+    for c in bulk_cancel_cases(rng):
         yield c
